@@ -4,7 +4,8 @@
    Definitions only (total, computable).  What is modelled:
      * the configuration surface of RtcConfiguration that the property quantifies over, as a finite
        type: transport mode x media mix x bundle policy x rtcp-mux policy x ICE-lite x ICE-TCP x
-       UDP mux x latching x SDP compatibility mode x which side offers;
+       UDP mux x TCP-only x latching x SDP compatibility mode (per end) x rtcp-mux policy (per end) x
+       in-band/negotiated data channel x which side offers;
      * `compatible : cfg -> cfg -> bool`;
      * what the offer/answer code does with those options as far as the two ends must AGREE:
        a=setup emitted by each side (PeerConnectionInner::populate_media_capabilities), DTLS role
@@ -42,6 +43,7 @@ Record cfg : Set := mkCfg {
   c_rtcp_mux : RtcpMuxPolicy;
   c_ice_lite : bool;
   c_ice_tcp : IceTcpPolicy;
+  c_udp_hosts : bool;               (* ice_gather_udp_hosts; false = ICE-TCP is the only path *)
   c_udp_mux : bool;
   c_latching : bool;
   c_compat : SdpCompatibilityMode }.
@@ -49,22 +51,31 @@ Record cfg : Set := mkCfg {
 Definition is_webrtc (m : TransportMode) : bool := TransportMode_eqb m TransportMode_WebRtc.
 (* Rtp and Srtp(SDES) run no ICE agent and no DTLS: `is_direct_mode` of PeerConnection::new *)
 Definition is_direct (m : TransportMode) : bool := negb (is_webrtc m).
+Definition tcp_enabled (c : cfg) : bool := IceTcpPolicy_eqb (c_ice_tcp c) IceTcpPolicy_Enabled.
 
-(* options that only exist where an ICE agent runs *)
+(* options that only exist where an ICE agent runs; without UDP host candidates the agent needs active
+   and passive TCP candidates (policy Enabled) and cannot use the UDP mux *)
 Definition cfg_wf (c : cfg) : bool :=
   (negb (c_udp_mux c) || is_webrtc (c_mode c)) &&
-  (IceTcpPolicy_eqb (c_ice_tcp c) IceTcpPolicy_Disabled || is_webrtc (c_mode c)).
+  (IceTcpPolicy_eqb (c_ice_tcp c) IceTcpPolicy_Disabled || is_webrtc (c_mode c)) &&
+  (c_udp_hosts c || (tcp_enabled c && negb (c_udp_mux c) && is_webrtc (c_mode c))).
 (* data channels need DTLS+SCTP, i.e. WebRtc mode; every direct-mode call carries media *)
 Definition mix_wf (m : TransportMode) (x : Mix) : bool := negb (mix_has_data x) || is_webrtc m.
 
-(* Two endpoints are compatible when they use the same transport mode and at most one of them is
-   an ICE-lite agent (two lite agents never start a connectivity check, RFC 8445 6.1.1). *)
+(* Two endpoints are compatible when they use the same transport mode, at most one of them is an
+   ICE-lite agent (two lite agents never start a connectivity check, RFC 8445 6.1.1) and their ICE
+   agents have a candidate transport in common (UDP on both, or full ICE-TCP on both).  rtcp-mux policy,
+   SDP compatibility mode, bundle policy and latching may differ freely. *)
 Definition compatible (a b : cfg) : bool :=
-  TransportMode_eqb (c_mode a) (c_mode b) && negb (c_ice_lite a && c_ice_lite b).
+  TransportMode_eqb (c_mode a) (c_mode b) && negb (c_ice_lite a && c_ice_lite b) &&
+  ((c_udp_hosts a && c_udp_hosts b) || (tcp_enabled a && tcp_enabled b)).
 
 (* ------------------------------------------------------------------ the lattice *)
-(* Endpoint S carries the single-sided options (ICE-lite, UDP mux: "server" features); its peer P
-   has them off; all other options are shared.  `p_s_offers` says which of the two makes the offer. *)
+(* Endpoint S carries the single-sided options (ICE-lite, UDP mux: "server" features) and its own
+   rtcp-mux policy and SDP compatibility mode; its peer P has the single-sided options off and its own
+   rtcp-mux policy / compatibility mode (`*_peer`); mode, mix, bundle policy, ICE-TCP policy, TCP-only
+   and latching are shared.  `p_s_offers` says which of the two makes the offer; `p_dcep` whether the
+   data channel is opened in-band (DCEP) by the offerer or negotiated out of band on both ends. *)
 Record point : Set := mkPoint {
   p_mode : TransportMode;
   p_mix : Mix;
@@ -75,12 +86,18 @@ Record point : Set := mkPoint {
   p_udp_mux : bool;
   p_latching : bool;
   p_compat : SdpCompatibilityMode;
-  p_s_offers : bool }.
+  p_s_offers : bool;
+  p_rtcp_mux_peer : RtcpMuxPolicy;
+  p_compat_peer : SdpCompatibilityMode;
+  p_tcp_only : bool;
+  p_dcep : bool }.
 
 Definition cfg_S (p : point) : cfg :=
-  mkCfg (p_mode p) (p_bundle p) (p_rtcp_mux p) (p_ice_lite p) (p_ice_tcp p) (p_udp_mux p) (p_latching p) (p_compat p).
+  mkCfg (p_mode p) (p_bundle p) (p_rtcp_mux p) (p_ice_lite p) (p_ice_tcp p) (negb (p_tcp_only p)) (p_udp_mux p)
+        (p_latching p) (p_compat p).
 Definition cfg_P (p : point) : cfg :=
-  mkCfg (p_mode p) (p_bundle p) (p_rtcp_mux p) false (p_ice_tcp p) false (p_latching p) (p_compat p).
+  mkCfg (p_mode p) (p_bundle p) (p_rtcp_mux_peer p) false (p_ice_tcp p) (negb (p_tcp_only p)) false
+        (p_latching p) (p_compat_peer p).
 Definition offerer_cfg (p : point) : cfg := if p_s_offers p then cfg_S p else cfg_P p.
 Definition answerer_cfg (p : point) : cfg := if p_s_offers p then cfg_P p else cfg_S p.
 
@@ -88,14 +105,17 @@ Definition bools : list bool := [false; true].
 
 Definition all_points : list point :=
   flat_map (fun m => flat_map (fun x => flat_map (fun b => flat_map (fun r => flat_map (fun l =>
-  flat_map (fun t => flat_map (fun u => flat_map (fun la => flat_map (fun c => map (fun o =>
-    mkPoint m x b r l t u la c o) bools)
+  flat_map (fun t => flat_map (fun u => flat_map (fun la => flat_map (fun c => flat_map (fun o =>
+  flat_map (fun rp => flat_map (fun cp => flat_map (fun tonly => map (fun dc =>
+    mkPoint m x b r l t u la c o rp cp tonly dc) bools) bools)
+  SdpCompatibilityMode_all) RtcpMuxPolicy_all) bools)
   SdpCompatibilityMode_all) bools) bools) IceTcpPolicy_all) bools) RtcpMuxPolicy_all) BundlePolicy_all)
   Mix_all) TransportMode_all.
 
-(* when S has no single-sided option the two ends are configured identically and "who offers" is not
-   a distinction: keep one representative *)
-Definition point_canonical (p : point) : bool := p_ice_lite p || p_udp_mux p || p_s_offers p.
+(* when S has no single-sided option, S is by convention the offerer (the other order is the point with
+   S's and P's rtcp-mux policy / compat mode exchanged); DCEP only where there is a data channel *)
+Definition point_canonical (p : point) : bool :=
+  (p_ice_lite p || p_udp_mux p || p_s_offers p) && (negb (p_dcep p) || mix_has_data (p_mix p)).
 
 Definition point_valid (p : point) : bool :=
   cfg_wf (cfg_S p) && cfg_wf (cfg_P p) && mix_wf (p_mode p) (p_mix p) &&
@@ -112,6 +132,26 @@ Definition derive_role (m : TransportMode) (current : option bool) (remote_setup
   | None => if is_direct m then Some direct_mode_is_client
             else match remote_setup with Some s => Some (setup_is_client s) | None => None end
   end.
+
+(* Which a=setup value of a description set_remote_description uses: the attributes are searched in
+   `setup_lookup_order` (all media sections first, then the session level), first match wins.
+   `media` = the media-level a=setup values in section order, `session` = the session-level one. *)
+Definition setup_at (l : SetupLevel) (media : list Setup) (session : option Setup) : option Setup :=
+  match l with Level_media => hd_error media | Level_session => session end.
+Fixpoint first_setup_in (order : list SetupLevel) (media : list Setup) (session : option Setup) : option Setup :=
+  match order with
+  | [] => None
+  | l :: rest => match setup_at l media session with Some s => Some s | None => first_setup_in rest media session end
+  end.
+Definition first_setup (media : list Setup) (session : option Setup) : option Setup :=
+  first_setup_in setup_lookup_order media session.
+Definition derive_role_desc (m : TransportMode) (current : option bool) (media : list Setup) (session : option Setup) : option bool :=
+  derive_role m current (first_setup media session).
+
+(* rustrtc writes a=setup on every media section (one call site of add_dtls_attributes) and never at
+   session level: the a=setup part of a generated description with n sections *)
+Definition described_setups (so : option Setup) (n : Z) : list Setup * option Setup :=
+  (match so with Some s => repeat s (Z.to_nat n) | None => [] end, None).
 
 (* populate_media_capabilities: a=setup is written only in WebRtc mode *)
 Definition emitted_setup (m : TransportMode) (k : SdpKind) (role : option bool) : option Setup :=
